@@ -521,13 +521,18 @@ func c17Client(ctx *Ctx, p *c17Proc, cfg c17Cfg, r *hv.Rng, full bool) {
 				continue
 			}
 			n := d / len(open)
+			nest := strings.Repeat(open, n)
+			if open == "(a<" { // ONE cast whose type parameters nest: (a<a<a<...
+				n = d / 2
+				nest = "(" + strings.Repeat("a<", n)
+			}
 			tok := fmt.Sprintf("deep%dx%dx%d", ctx.Seed%1000, di, oi)
 			p.be.SetScript(tok, fb.Outcome{Kind: fb.ErrMsg, Msg: &message.Overloaded{ErrorMessage: "scripted"}}, fb.Outcome{Kind: fb.OkRows})
-			q := "INSERT INTO t (k, a) VALUES ('tok:" + tok + "', " + strings.Repeat(open, n)
+			q := "INSERT INTO t (k, a) VALUES ('tok:" + tok + "', " + nest
 			body := append(longString(q), 0, 1, 0)
 			p.clientStream(ctx, 8, fmt.Sprintf("QUERY nesting %q x %d", open, n), p.cver, frameBytes(byte(p.cver), 0, 2, byte(primitive.OpCodeQuery), body), true, "deep-nesting")
 			if d <= 1<<20 || ctx.Thorough || open == "(a<" {
-				pq := "INSERT INTO t (k, a) VALUES (?, " + strings.Repeat(open, n)
+				pq := "INSERT INTO t (k, a) VALUES (?, " + nest
 				p.clientStream(ctx, 8, fmt.Sprintf("PREPARE nesting %q x %d", open, n), p.cver, frameBytes(byte(p.cver), 0, 2, byte(primitive.OpCodePrepare), longString(pq)), true, "deep-nesting")
 			}
 		}
